@@ -476,6 +476,12 @@ func (env *SpecEnv) field(v *Val, idx int) *Val {
 		}
 		r := vc.loadPtr(p, h)
 		env.wfRef(r, h)
+		// values held in the heap satisfy their type's invariant (integer range, string/slice shape)
+		if r.Typ != nil && r.T != "" {
+			if rf := vc.rangeFact(r.T, r.Typ, 0); rf != "true" && len(rf) < 4000 {
+				vc.S.Assert(rf)
+			}
+		}
 		return r
 	}
 	stT, st := structOf(v.Typ)
@@ -694,6 +700,13 @@ func (env *SpecEnv) call(x *CallE) *Val {
 			return boolVal("true")
 		}
 		return boolVal(heldFormula(env.held, mv.P.Heap, mv.P.Ref))
+	case "fresh":
+		// fresh(x): the object (or backing array) x, evaluated in the current state, did not exist in the pre-state
+		argn(1)
+		if env.old == nil {
+			env.fail("fresh() needs a pre-state")
+		}
+		return boolVal(not(sel(env.old.Get("$alloc"), env.refOf(env.eval(x.Args[0])))))
 	case "allocated":
 		argn(1)
 		return boolVal(sel(env.curHeap().Get("$alloc"), env.refOf(env.eval(x.Args[0]))))
